@@ -775,14 +775,27 @@ def r3(ctx: RuleCtx) -> None:
         foreign = [norm(d) for d in impl.fn.decorator_list if (attr_chain(d.func if isinstance(d, ast.Call) else d) or '').split('.')[-1] not in known_deco]
         if foreign:
             raise Undecided(f'IntegerHolder {opn}: decorated with {foreign}, which may carry the zero test')
-        tab = tables.extract(impl.fn, name=f'IntegerHolder {opn}')
+        from .c01_sym import inline_helpers
+        helpers = private_helpers(impl.mod.cls(impl.owner))
+        body = inline_helpers(list(impl.fn.body), {k: v for k, v in helpers.items() if v is not impl.fn})
+        tab = tables.extract(impl.fn, body=body, name=f'IntegerHolder {opn}')
         zero = Atom('cmp', ('eq', 'ARG1', '0'))
         for r in tab.rows:
             z = r.conds.get(zero)
+            if z is None and not r.conds and any(isinstance(n, ast.Call) and not (isinstance(n.func, ast.Name) and n.func.id in ('len', 'int', 'abs'))
+                                                 for st_ in body for n in ast.walk(st_) if not isinstance(st_, ast.Return)):
+                raise Undecided(f'IntegerHolder {opn}: the body calls something this rule could not read before dividing - the zero test may live there')
             if z is None and not r.conds:
                 ctx.violation(im, f'IntegerHolder.{impl.fn.name}', f'{opn} row without zero test: {r.outcome}', f'integer {opn} computes {r.outcome} without testing the divisor for zero', impl.fn)
                 continue
-            if z is None or len(r.conds) != 1:
+            if z is None and Atom('truth', ('ARG1',)) in r.conds:
+                z = not r.conds[Atom('truth', ('ARG1',))]           # `if not other:` spelling of the zero test
+            if z is None and not any('ARG1' in str(x) for a_ in r.conds for x in a_.args):
+                if r.outcome[0] == 'return':
+                    ctx.violation(im, f'IntegerHolder.{impl.fn.name}', f'{opn} row without zero test: {r.outcome}',
+                                  f'integer {opn} computes {r.outcome} on a row ({r!r}) that never tests the divisor for zero', impl.fn)
+                continue
+            if z is None:
                 raise Undecided(f'IntegerHolder {opn}: unknown row {r!r}')
             ok = r.outcome == ('raise', 'InvalidArguments') if z else r.outcome[0] == 'return'
             ctx.require(ok, f'IntegerHolder {opn}: divisor {"== 0 -> InvalidArguments" if z else "!= 0 -> result"}', im, f'IntegerHolder.{impl.fn.name}', f'{opn} row zero={z}: {r.outcome}',
